@@ -13,8 +13,8 @@ from vf.values import same, show
 
 PID = "C07"
 
-ARG_SHAPES = [(), ("msg",), ("é\x00", 2 ** 70), (None, [1.5, {"k": "v"}]), (3, "three")]
-ATTR_SHAPES = {"none": {}, "scalar": {"code": 7}, "nested": {"info": [1, {"a": "x"}], "flag": True}}
+ARG_SHAPES = [(), ("msg",), ("é\x00", 2 ** 70), (None, [1.5, {"k": "v"}]), (3, "three"), ("x", (3, 4))]
+ATTR_SHAPES = {"none": {}, "scalar": {"code": 7}, "nested": {"info": [1, {"a": "x"}], "flag": True}, "tuple": {"span": (10, 20), "deep": [("a", 1)]}}
 KINDS = ["call", "prop", "batch_first", "batch_middle", "batch_last", "stream0", "stream2"]
 GENERATOR_PROTOCOL = ("StopIteration", "StopAsyncIteration", "GeneratorExit")
 
@@ -63,11 +63,19 @@ def run_config(unit):
                 except Exception:
                     continue           # the class constructor rejects this shape locally
                 for an, attrs in ATTR_SHAPES.items():
-                    if quick and ai >= 3 and an != "none":
+                    if quick and ai in (3, 4) and an != "none":
+                        continue
+                    if quick and an == "tuple" and ai not in (1, 5):
                         continue
                     cases.append((mod, name, cls, args, an, attrs))
         cases = cases[si::sn]
         tokens = [0]
+        from Pyro5 import serializers as _sers
+        _ser = _sers.serializers[sername]
+
+        def mapped(value):
+            """the serializer's own fixed mapping of a plain value (tuples become lists under json/msgpack ...), defined by a plain round trip"""
+            return _ser.loads(_ser.dumps(value))
 
         def next_call_works(case, fpkey):
             tokens[0] += 1
@@ -139,7 +147,7 @@ def run_config(unit):
                         st.outcomes["stream-end-marker"] = st.outcomes.get("stream-end-marker", 0) + 1
                     else:
                         V("no-exception-raised|%s|%s" % (name, kind.split("_")[0]), "the call returned %s instead of raising %s%r" % (show(r), name, args), case)
-                elif type(caught) is not cls or (pyro_comm and not same(tuple(caught.args), tuple(args))):
+                elif type(caught) is not cls or (pyro_comm and not same(tuple(caught.args), tuple(mapped(list(args))))):
                     if pyro_comm:
                         V("pyro-communication-error-raised-by-method-not-reported|%s" % name,
                           "remote method raised Pyro5.errors.%s, the caller got %r" % (name, caught), case)
@@ -148,10 +156,10 @@ def run_config(unit):
                     else:
                         V("class-not-preserved|%s|%s" % (name, kind.split("_")[0].rstrip("02")), "remote %s%r arrived as %s: %r" % (name, args, type(caught).__name__, caught), case)
                 else:
-                    if not same(tuple(caught.args), tuple(args)):
+                    if not same(tuple(caught.args), tuple(mapped(list(args)))):
                         V("args-differ|%s" % kind.split("_")[0].rstrip("02"), "%s args %s arrived as %s" % (name, show(args), show(caught.args)), case)
                     got_attrs = {k: v for k, v in vars(caught).items() if k != "_pyroTraceback"}
-                    if not same(got_attrs, attrs):
+                    if not same(got_attrs, mapped(attrs)):
                         V("attributes-differ|%s|%s" % (an, kind.split("_")[0].rstrip("02")), "%s attributes %s arrived as %s" % (name, show(attrs), show(got_attrs)), case)
                     tb = getattr(caught, "_pyroTraceback", None)
                     if not tb or not isinstance(tb, list) or not all(isinstance(l, str) for l in tb):
